@@ -1562,15 +1562,29 @@ struct Exec {
         if (len > s.clip.size() - s.fed)
             len = s.clip.size() - s.fed;
         int rv;
+        // a decoder configured for big-endian input gets its samples in that byte order
+        const char *ie = config_str(s.d->config, "input_endian");
+        const bool be = ie && strcmp(ie, "big") == 0;
+        if (be)
+            out.probes["dec.big_endian_feed"]++;
         if (s.f32) {
             float *heap = (float *)malloc(sizeof(float) * (len ? len : 1));
             for (size_t i = 0; i < len; ++i)
                 heap[i] = (float)s.clip[s.fed + i] / 32768.0f * (float)s.fgain;
+            if (be)
+                for (size_t i = 0; i < len; ++i) {
+                    unsigned char *b = (unsigned char *)&heap[i];
+                    std::swap(b[0], b[3]);
+                    std::swap(b[1], b[2]);
+                }
             rv = decoder_process_float32(s.d, heap, len, ns, full);
             free(heap);
         } else {
             int16_t *heap = (int16_t *)malloc(sizeof(int16_t) * (len ? len : 1));
             memcpy(heap, s.clip.data() + s.fed, sizeof(int16_t) * len);
+            if (be)
+                for (size_t i = 0; i < len; ++i)
+                    heap[i] = (int16_t)((((uint16_t)heap[i]) >> 8) | (((uint16_t)heap[i]) << 8));
             rv = decoder_process_int16(s.d, heap, len, ns, full);
             free(heap);
         }
@@ -1674,6 +1688,8 @@ struct Exec {
         int before = decoder_n_frames(s.d);
         int rv = decoder_end_utt(s.d);
         int after = decoder_n_frames(s.d);
+        if (s.probe && !quiet && s.d->acmod->fcb->bufpos == 0)
+            out.probes["c08.probe_ended_at_ring_wrap"]++;
         out.events.i64(rv);
         s.in_utt = false;
         s.searched += after - before;
@@ -1853,6 +1869,33 @@ struct Exec {
                 fe_get_input_size(decoder_fe(s.d), &sh, &sz);
                 S = sz;
                 H = sh;
+            } else if (o == "ring_pad") {
+                // history chosen so that the probe that follows ENDS exactly where the live feature ring wraps (its write
+                // position, never reset between utterances, back at 0): a streamed filler utterance of the right length.
+                // Positions are read from the decoder (public struct), lengths follow from them: nothing is assumed
+                // about where the template left the ring.
+                if (s.in_utt)
+                    end_utt(s, Json::object(), opi);
+                if (!s.has_grammar || quiet)
+                    continue;
+                feat_t *fcb = s.d->acmod->fcb;
+                const int ring = 256, win = feat_window_size(fcb);
+                int64_t Fp = frames_for(op.geti("probe_n"), S, H) + op.geti("delta", 0);
+                int64_t Fpad = (((-(int64_t)fcb->bufpos - 2 * win - Fp) % ring) + ring) % ring;
+                if (Fpad < 8)
+                    Fpad += ring;
+                std::vector<int16_t> pad((size_t)(S + (Fpad - 2) * H)); // Fpad - 1 whole windows and the trailing frame
+                uint32_t x = 12345u + (uint32_t)Fpad;
+                for (auto &v : pad) {
+                    x = x * 1103515245u + 12345u;
+                    v = (int16_t)((int)((x >> 16) & 0x3ff) - 512);
+                }
+                if (frames_for((int64_t)pad.size(), S, H) == Fpad && decoder_start_utt(s.d) == 0) {
+                    decoder_process_int16(s.d, pad.data(), pad.size(), FALSE, FALSE);
+                    decoder_end_utt(s.d);
+                    out.probes["c08.ring_pad_utterance"]++;
+                    out.events.i64((int64_t)fcb->bufpos);
+                }
             } else if (o == "begin") {
                 if (s.in_utt)
                     end_utt(s, Json::object(), opi);
@@ -2503,6 +2546,11 @@ struct DecWorld : World {
         if (prop == "C07") {
             std::string t = pick_tmpl(r);
             add_dec(t);
+            if (r.chance(0.12)) { // a decoder created for big-endian input (made the same way in the reference execution)
+                Json c = Json::object();
+                c.set("input_endian", "big");
+                decs.a[0].set("create", c);
+            }
             bool full = r.chance(0.08);
             if (r.chance(0.25)) {
                 // prelude: an earlier whole-utterance decode, long enough to enlarge the decoder's cepstrum buffer beyond the
@@ -2562,6 +2610,20 @@ struct DecWorld : World {
                     // (three probes in ten are long enough for the live normalisation window to shift inside them: the same
                     // calls are made in the reference, so C07's length restriction does not apply here)
                     gd.utterance(d, ts[(size_t)d], newg || hist == 0, true, true, full_class, r.chance(0.3) ? 100000 : MAX_CMP_SAMPLES, 0.0, false, !full_class);
+                    // one probe in four is preceded by a filler utterance sized so that the probe ends where the live
+                    // feature ring wraps (or one frame off)
+                    if (!full_class && r.chance(0.25)) {
+                        for (size_t i = before; i < gd.ops.a.size(); ++i)
+                            if (gd.ops.a[i].gets("op") == "begin") {
+                                Json rp = Json::object();
+                                rp.set("op", "ring_pad");
+                                rp.set("probe_n", gd.ops.a[i]["sig"].geti("n"));
+                                rp.set("delta", (long long)r.pick(std::vector<int> { 0, 0, 0, 0, -1, 1 }));
+                                rp.set("d", d);
+                                gd.ops.a.insert(gd.ops.a.begin() + (long)i, rp);
+                                break;
+                            }
+                    }
                     // second decode of the same utterance: copy begin..end
                     std::vector<Json> again;
                     for (size_t i = before; i < gd.ops.a.size(); ++i) {
@@ -2597,6 +2659,8 @@ struct DecWorld : World {
                 };
                 auto cfg_of = [&](const std::vector<std::string> &w) {
                     Json c = Json::object();
+                    if (r.chance(0.25))
+                        c.set("input_endian", "big");
                     if (!w.empty()) {
                         c.set("warp_type", w[0]);
                         if (!w[1].empty())
